@@ -66,12 +66,21 @@ KINDS_D = [
     "an ERROR-HANDLING change: explicit exceptions with clear messages instead of obscure failures deep inside numpy for malformed input (wrong shape, NaN, negative parameters), try / except / finally tidied, early returns for trivial cases - every input that worked before gives exactly the same result",
     "a LOOP-RESTRUCTURING change: index arithmetic and loops of the anchored code rewritten in the idiom a reviewer would ask for (`while` with a manual counter -> `for ... in range`, `range(len(x))` -> `enumerate` / `zip`, slices instead of index lists, `reversed`, `itertools.pairwise`-style neighbours, a sentinel instead of a flag) - results unchanged",
 ]
+KINDS_E = [
+    "a LAZY-COMPUTATION / CACHING-OF-DERIVED-STATE change on the anchored classes and functions: an expensive derived quantity (a grid, a mesh, a cost matrix, sorted copies, a landscape's critical pairs, a kernel's normalisation) is computed on demand and kept (a private `_cache` attribute or `functools.cached_property`, invalidated by the setters / by `fit` / when the inputs differ), or - where the code is already lazy - the lazy machinery is tidied (one `_ensure_computed()` helper, a `computed` property); for function-only modules a small per-call record of intermediate results that the steps share - results unchanged",
+    "an OBJECT-PROTOCOL change: the anchored classes get (or the functions' intermediate results become objects with) `__repr__`, `__eq__`, `__copy__` / `__deepcopy__` / `copy()`, `get_params` / `set_params`, `__getstate__` / `__setstate__`, `to_dict` / `from_dict`, `__len__` / `__iter__`, and existing code that copied / compared / rebuilt such objects by hand now uses them - results unchanged",
+    "a BATCH / COLLECTION change: a public function of the anchored code that works on one item (a pair of diagrams, one diagram, one landscape, one graph) gets its collection handling reorganised - a private `_each` / `_pairwise` driver, `map` / a generator pipeline, an optional `n_jobs`, chunks of a fixed size, results gathered into a pre-sized array - with results identical, in the same order, for single items and collections alike",
+    "a CONFIGURATION change: numbers and choices hard-wired in the anchored code (tolerances, default resolutions / sizes, dtypes, the value standing for infinity, colours and marker sizes) are gathered in one private settings object or module-level table and handed to the code that needs them (explicitly or through a private accessor) - defaults and results unchanged",
+    "an IMMUTABILITY / DEFENSIVE-COPY change: what the anchored public functions return, and what the objects keep, is protected against accidental modification - returned arrays copied or marked read-only, inputs frozen with `setflags(write=False)` while they are used and restored afterwards, tuples instead of lists for constants, private attributes behind read-only properties - results unchanged for callers that do not write into what they get",
+]
 if letter >= "Q":
     KINDS = KINDS_B
 if letter >= "T":
     KINDS = KINDS_C
 if letter >= "U":
     KINDS = KINDS_D
+if letter >= "V":
+    KINDS = KINDS_E
 
 for k, pr in enumerate(props):
     pid = pr["id"]
@@ -90,7 +99,9 @@ for k, pr in enumerate(props):
                "(an in-place operation that reaches the caller's array or the object's stored state through a view, a generator consumed twice or measured with len(), a view returned where a copy was promised, the old alias silently winning over the new name or a sentinel compared with `==` against an array, an injected default created once at import time and shared by all calls, a local generator or clock replacing the global one, a validation moved below the first use of what it validates, the shared helper applying one sibling's convention to the other, a scratch array that still holds the previous iteration's tail)"
                if "T" <= letter < "U" else
                "(a helper that moved and lost a line or a default on the way, the shared helper carrying the convention of the module it came from into the other one, state kept on the object that should have been per call, a field of the state object updated in one method and read stale in another, a decorator that evaluates something once at decoration time or swallows / reorders an argument or drops the return value on one path, a context manager that does not restore on the exception path, an early return taken for an input that is not trivial, a validation that rejects or rewrites valid input, a range / slice end off by one after the rewrite, neighbours paired with the wrong offset, a loop variable reused after the loop)"
-               if letter >= "U" else
+               if "U" <= letter < "V" else
+               "(a cache that is not invalidated by one of the things it depends on, or is invalidated too late / too early; a cached value shared between instances; a read of derived state before it is (re)computed; `copy()` / `__deepcopy__` / `set_params` / `__setstate__` that forgets one attribute, shares a mutable one or resets a fitted one; `__eq__` that compares too little; results of a batch gathered in the wrong order, truncated by `zip`, or written into a buffer of the wrong dtype / size; the single-item path and the collection path disagreeing; a setting read once at import or definition time, a setting that one call path still hard-wires; an input left frozen / modified on an exception path, a read-only view handed to code that writes, a returned view that aliases internal state)"
+               if letter >= "V" else
                "(the new parameter not passed on along one of two call paths or shadowing an existing name, a default evaluated once and shared, the corner-case branch taken for inputs that are not the corner case, a 'modern equivalent' whose defaults or argument order differ from the old call, an assertion or log statement that consumes an iterator / mutates / reorders what it inspects, a step extracted into a helper that returns before the last statement of the old block, a renamed variable that still exists under its old name with a stale value, two 'independent' statements that were not independent)")
     prompt = f"""You are helping test verification tooling for the Python library scikit-tda/persim (persistence-diagram tools).
 You have your OWN scratch git worktree of the repository at /tmp/wt_{hid} (work ONLY there and in /tmp/ref_{hid}; never touch /repo or /verif, do not read anything under /verif, and do NOT use `git stash` - the stash is shared between worktrees; to undo use `git -C /tmp/wt_{hid} checkout -- .` or `git apply -R`).
